@@ -58,8 +58,17 @@ NotNumeric(S)   == \A o \in NamedEnums(S) : \A i \in DOMAIN o.type.members : ~o.
 PhpSanitised(S) == \A o \in NamedEnums(S) : \A i \in DOMAIN o.type.members :
                       ~o.type.members[i].empty /\ ~o.type.members[i].sign
 
+\* what the prefix is FOR: Go has one name space per package, so no enum member may bear the name of an object of its
+\* package or of a member of another enum of that package
+EnumObjsOf(sc) == {j \in DOMAIN sc.objects : sc.objects[j].type.k = "enum"}
+MemberNames(o) == {o.type.members[i].name : i \in DOMAIN o.type.members}
+GoNamesDistinct(S) ==
+  \A p \in DOMAIN S : \A j \in EnumObjsOf(S[p]) :
+     /\ MemberNames(S[p].objects[j]) \cap {S[p].objects[k].name : k \in DOMAIN S[p].objects \ {j}} = {}    \* (a member named like its OWN enum - a name made of signs only camel-cases to nothing - is the sanitiser's business)
+     /\ \A k \in EnumObjsOf(S[p]) \ {j} : MemberNames(S[p].objects[j]) \cap MemberNames(S[p].objects[k]) = {}
+
 Clauses(L) ==
-  CASE L = "go"         -> {"NoUnion", "EnumsNamed", "StructsNamed", "NonRequiredIsNullable", "NoTOrNull", "GoPrefixed"}
+  CASE L = "go"         -> {"NoUnion", "EnumsNamed", "StructsNamed", "NonRequiredIsNullable", "NoTOrNull", "GoPrefixed", "GoNamesDistinct"}
     [] L = "java"       -> {"NoUnion", "EnumsNamed", "StructsNamed", "NonRequiredIsNullable", "NoTOrNull"}
     [] L = "php"        -> {"EnumsNamed", "StructsNamed", "NonRequiredIsNullable", "NoTOrNull", "PhpSanitised"}
     [] L = "python"     -> {"StructsNamed", "NonRequiredIsNullable", "NoTOrNull", "NotNumeric"}
@@ -72,6 +81,7 @@ Holds(c, S) ==
     [] c = "NonRequiredIsNullable" -> NonRequiredIsNullable(S)
     [] c = "NoTOrNull"             -> NoTOrNull(S)
     [] c = "GoPrefixed"            -> GoPrefixed(S)
+    [] c = "GoNamesDistinct"       -> GoNamesDistinct(S)
     [] c = "NotNumeric"            -> NotNumeric(S)
     [] c = "PhpSanitised"          -> PhpSanitised(S)
 ViolatedClauses(L, S) == {c \in Clauses(L) : ~Holds(c, S)}
